@@ -278,11 +278,20 @@ def run(ctx):
     ctx.guard("exponent", "fe64", lambda: check_exponents(ctx, P, "K0", "fe64"))
     ctx.guard("total", "x25519", lambda: check_total(ctx, P, ["curve25519::curve25519", "curve25519::curve25519_base"]))
     ctx.guard("wrapper", "x25519", lambda: check_wrappers(ctx, P))
-    if ctx.tier == "thorough":
-        P2 = ctx.prog("K2")
-        ctx.guard("exponent", "fe32", lambda: check_exponents(ctx, P2, "K2", "fe32"))
-        ctx.guard("ladder", "curve25519/K2", lambda: ladder(ctx, P2, "curve25519::curve25519", False))
-        ctx.guard("ladder", "curve25519_base/K2", lambda: ladder(ctx, P2, "curve25519::curve25519_base", True))
-        ctx.guard("total", "x25519/K2", lambda: check_total(ctx, P2, ["curve25519::curve25519", "curve25519::curve25519_base"]))
-    ctx.trusted.append("ssa term evaluator, bit-provenance and polynomial normal form (cxsa/ssa.py, termbits.py, poly.py)")
-    ctx.not_decided += ["Fe multiplication / squaring / reduction as numbers", "fe32 from_bytes bit map (carry-based decoding, not a pure bit permutation)"]
+    # the 32-bit limb backend (--features force-32bits) computes the same function: same rules on its MIR
+    P2 = ctx.prog("K2")
+    ctx.guard("exponent", "fe32", lambda: check_exponents(ctx, P2, "K2", "fe32"))
+    ctx.guard("ladder", "curve25519/K2", lambda: ladder(ctx, P2, "curve25519::curve25519", False))
+    ctx.guard("ladder", "curve25519_base/K2", lambda: ladder(ctx, P2, "curve25519::curve25519_base", True))
+    ctx.guard("total", "x25519/K2", lambda: check_total(ctx, P2, ["curve25519::curve25519", "curve25519::curve25519_base"]))
+    # the field operations the ladder is made of: limb-polynomial identities modulo 2^255-19 and limb bounds (shared
+    # rule instances with C15)
+    from . import C15 as _C15, febounds
+    ctx.guard("limbpoly", "fe64", lambda: _C15.check_field_ops(ctx, P, "fe64", "K0"))
+    ctx.guard("limbpoly", "fe32", lambda: _C15.check_field_ops(ctx, P2, "fe32", "K2"))
+    ctx.guard("canonical", "fe64", lambda: _C15.check_canonical(ctx, P, "fe64"))
+    ctx.guard("canonical", "fe32", lambda: _C15.check_canonical(ctx, P2, "fe32"))
+    ctx.guard("fe-bounds", "fe64", lambda: febounds.check_fe64(ctx, P, "K0"))
+    ctx.guard("fe-bounds", "fe32", lambda: febounds.check_fe32(ctx, P2, "K2"))
+    ctx.trusted.append("ssa term evaluator, bit-provenance and polynomial normal form (cxsa/ssa.py, termbits.py, poly.py), interval domain (bounds.py)")
+    ctx.not_decided += ["the field operations as numbers beyond their limb-polynomial identities and limb bounds", "fe32 from_bytes bit map (carry-based decoding, not a pure bit permutation): only its bounds and the bit-255 mask position are decided"]
